@@ -28,7 +28,7 @@ type BlockSpec struct {
 }
 
 type OpRec struct {
-	Op   string `json:"op"` // add get len trusted invalid idle close reopen
+	Op   string `json:"op"` // add get getext getnc len trusted invalid idle close reopen (getext = BlockGetExt, getnc = BlockGetInternal(hash, true))
 	B    int    `json:"b"`  // block number; -1 = a hash that was never added
 	Flag bool   `json:"flag,omitempty"`
 	Opts *Opts  `json:"opts,omitempty"`
@@ -172,6 +172,11 @@ func genOpts(g *vlib.Rng) *Opts {
 	return o
 }
 
+// readOp picks one of the store's read entry points.
+func readOp(g *vlib.Rng) string {
+	return []string{"get", "get", "get", "getnc", "getnc", "getext"}[g.Intn(6)]
+}
+
 // genHistory builds one structured, mostly-valid history.
 func genHistory(g *vlib.Rng, name string, big bool) *History {
 	h := &History{Name: name}
@@ -243,7 +248,13 @@ func genHistory(g *vlib.Rng, name string, big bool) *History {
 			}
 			h.Ops = append(h.Ops, OpRec{Op: "add", B: b, Flag: t})
 		case x < 60:
-			h.Ops = append(h.Ops, OpRec{Op: "get", B: pick()})
+			// the three read entry points; the one-pass read (do_not_cache) is what the block parser / undo / rescan use,
+			// typically on the blocks added last (still queued) and then read again by somebody else
+			b := pick()
+			h.Ops = append(h.Ops, OpRec{Op: readOp(g), B: b})
+			if g.Chance(1, 4) {
+				h.Ops = append(h.Ops, OpRec{Op: readOp(g), B: b})
+			}
 		case x < 68:
 			h.Ops = append(h.Ops, OpRec{Op: "len", B: pick(), Flag: g.Bool()})
 		case x < 75:
@@ -282,7 +293,7 @@ func genHistory(g *vlib.Rng, name string, big bool) *History {
 	}
 	h.Ops = append(h.Ops, OpRec{Op: "reopen", Opts: opts})
 	for _, b := range added {
-		h.Ops = append(h.Ops, OpRec{Op: "get", B: b})
+		h.Ops = append(h.Ops, OpRec{Op: readOp(g), B: b})
 		if g.Chance(1, 3) {
 			h.Ops = append(h.Ops, OpRec{Op: "len", B: b, Flag: true})
 		}
